@@ -19,4 +19,17 @@ mk d5_kw_on_fetch_only        C06-for-clause-kwcase           fix_c06b.py
 mk d6_ignore_dollar_notifs    C18-dollar-method-dropped       fix_c18b.py
 mk d7_bulk_insert_polls       C11-bulk-insert-no-poll         fix_c11b.py
 mk d8_read_errors_logged      C18-read-error-budget           fix_c18c.py
+mk d9_param_style_all_loops     C07-param-style-recovery-loop          fix_c07f.py
+mk d10_type_modifiers_stop_semi C12-type-modifiers-skip-semicolon      fix_c12f.py
+mk d11_children_both_orderings  C14-functioncall-ordering-folded       fix_c14f.py
+mk d12_compound_positions_copy  C13-compound-word-positions            fix_c13f.py
+mk d13_offset_unless_fetch_has  C06-offset-dropped-with-fetch          fix_c06f.py
+mk d14_using_scratch_copied     C15-using-scratch-aliased              fix_c15f.py
+mk d15_namebuf_truncated_first  C08-namebuf-error-residue              fix_c08f.py
+mk d16_comments_copied          C10-comments-after-put                 fix_c10f.py
+mk d17_skipdir_only_dirs        C19-skipdir-on-hidden-file             fix_c19f.py
+mk d18_datatype_depth_guard     C02-datatype-nesting-unguarded         fix_c02f.py
+mk d19_memo_forgotten_on_close  C18-diagnostics-memo-not-invalidated   fix_c18f.py
+mk d20_dollar_tags_indexed      C20-unclosed-dollar-tags-rescan        fix_c20f.py
+mk d21_partition_key_expr_only  C11-partition-key-fallback-swallows    fix_c11f.py
 ls -la "$out"/*.diff
